@@ -110,6 +110,7 @@ type LayoutCfg struct {
 	Extra        int  `json:"extra"`                    // number of extra unrelated outputs
 	DecoySameAmt bool `json:"decoy_same_amt,omitempty"` // an extra output with the same value (different script)
 	DecoyLast    bool `json:"decoy_last,omitempty"`     // ... placed behind the swap output
+	NestedInput  bool `json:"nested_input,omitempty"`   // tier 2/3: the wallet funds with a nested-segwit coin (final txid differs from the unsigned one)
 	SpendChange  bool `json:"spend_change,omitempty"`   // wallet later spends its change output
 }
 
